@@ -217,4 +217,4 @@ LEVEL_NOTE = ("Trusted: Coq kernel, ExtrOcamlBasic extraction, OCaml/C++ glue, g
 TECHNIQUE = "Coq proof of flat and nested image models + verified gate deciders; extracted gates judge libvata's results under the read-back map"
 DESIGN_REF = "DESIGN.md 5/C14"
 EXPLANATION = explain("", "", "")
-READY = False
+READY = True
